@@ -332,7 +332,7 @@ func init() {
 	}
 	register(&Property{
 		ID: "C08", Level: "fault_enumeration",
-		Rule:     "(a) C07's corpus with the connection cut at every octet offset (FIN; RST/half-close/stall sampled); (b) every server-initiated ending - 221 after QUIT, the fourth protocol error, an over-long line, the idle timeout, a backend panic in NewSession/Mail/Rcpt/Data, Server.Close at a drawn instant - struck at five conversation positions (before greeting ... inside a chunked transfer) and followed by every drawn suffix of 0-4 further commands in the same segment or later; (c) STARTTLS whose Logout parks while Server.Close fires. Non-trivial: the cut falls inside a transfer, or the server ended the connection; distinct by (kind, position, suffix, mode) resp. (offset, kind, conversation).",
+		Rule:     "(a) C07's corpus with the connection cut at every octet offset (FIN; RST/half-close/stall sampled); (b) every server-initiated ending - 221 after QUIT, the fourth protocol error, an over-long line, the idle timeout, a backend panic in NewSession/Mail/Rcpt/Data, Server.Close at a drawn instant - struck at five conversation positions (before greeting ... inside a chunked transfer) and followed by every drawn suffix of 0-4 further commands in the same segment or later; (c) STARTTLS whose Logout parks while Server.Close fires. Non-trivial: the cut falls inside a transfer, or the server ended the connection; distinct by (kind, position, suffix, mode) resp. (offset, kind, conversation). Fault kinds drawn on top: the backend's Logout returns an error; the n-th reply write fails; the n-th reply write blocks (peer not reading) for 30 s, until WriteTimeout, or for ever; the idle timeout strikes in the middle of a command line. What follows the point where the server had reason to give up is never executed.",
 		Gen:      genC08,
 		Check:    checkC08,
 		Classify: classifyC08,
